@@ -89,6 +89,16 @@ CLAIMED = {
         'carry a position inside code_lines; names without tree position (ImportName/ModuleName at (1,0)) are outside '
         'the contracts (known by-design deviation F14, not claimed).',
         'contract-based deductive verification (PyVC) with assumed parso model', 'DESIGN.md 6/C17'),
+    'C19': (
+        'Deductive: expand_relative_ignore_paths proved in both directions (an entry prunes <dir>/<entry> exactly in '
+        'the folder of its .gitignore and below it; nothing else is pruned), split_search_string against its '
+        'string spec (join/split round trip, "def" -> function), the duplicate filter proved to drop only repeats '
+        '(loop invariant); AST obligations: ignored folder names, in-place pruning filter, .py/.pyi file filter, '
+        'documented limits.',
+        'Trusted: os.path.join POSIX model, set iteration as some sequence; FolderIO.walk pruning loop, '
+        'gitignored_paths parsing, regex prefilter and search_in_module matching are not yet under contract; '
+        '.gitignore FILE entries are not honoured by the code (reading question, not claimed).',
+        'contract-based deductive verification (PyVC) + AST obligations', 'DESIGN.md 6/C19'),
 }
 
 NOT_APPLICABLE = {
